@@ -408,6 +408,12 @@ fn run_history(disk: &[usize], steps: &[Step], located_only: Option<&'static str
             Step::Open(f, t) => {
                 client.docs[*f] = Some(ClientDoc::new(t));
                 st.inc("step:open");
+                // in every other history the client numbers the versions of a document from the start again when it
+                // opens it again (didOpen carries version 0), as editors do; in the others it keeps counting
+                if steps.len() % 2 == 0 && client.versions[*f] > 0 {
+                    client.versions[*f] = 0;
+                    st.inc("reopened_with_versions_starting_again");
+                }
                 lsp.did_open(&uris[*f], t)
             }
             Step::Close(f) => {
